@@ -184,8 +184,31 @@ def contradictory(run):
     whole = {}
     epoch = 0
     cur = {}      # literals established since the last effect that could change their operands (plus stable ones)
+    assigned_at = {}   # local name -> epoch of its (latest) plain assignment: `if name:` tests the value computed THEN
+    at_epoch = {}      # epoch -> literals established about values computed in that epoch
+    import ast as _ast
     for rec in run.recs:
+        nd = rec.ev.node
+        if rec.ev.kind == "stmt" and isinstance(nd, _ast.Assign):
+            for t in nd.targets:
+                if isinstance(t, _ast.Name):
+                    assigned_at[t.id] = epoch
+        elif rec.ev.kind == "stmt" and isinstance(nd, (_ast.AugAssign, _ast.AnnAssign)) and isinstance(nd.target, _ast.Name):
+            assigned_at[nd.target.id] = epoch
         if rec.cond is not None and rec.pol is not None:
+            tn = nd.operand if isinstance(nd, _ast.UnaryOp) and isinstance(nd.op, _ast.Not) else nd
+            if isinstance(tn, _ast.Name) and tn.id in assigned_at:
+                # a snapshot: consistent with what is known about the epoch in which the local was computed
+                d = at_epoch.setdefault(assigned_at[tn.id], {})
+                for a, v in lits([(rec.cond, rec.pol)]):
+                    if d.setdefault(a, v) != v:
+                        return True
+                if not G.consistent(d):
+                    return True
+            else:
+                d = at_epoch.setdefault(epoch, {})
+                for a, v in lits([(rec.cond, rec.pol)]):
+                    d.setdefault(a, v)
             g, p = rec.cond, rec.pol
             if g[0] == "not":
                 g, p = g[1], not p
